@@ -109,10 +109,35 @@ type fxCtx struct {
 	spine []space.Site // d2 sites
 }
 
+// ctxPool is a free list of working copies (never dropped by the garbage collector).
+type ctxPool struct {
+	mu   sync.Mutex
+	free []*fxCtx
+	New  func() any
+}
+
+func (p *ctxPool) Get() any {
+	p.mu.Lock()
+	if n := len(p.free); n > 0 {
+		c := p.free[n-1]
+		p.free = p.free[:n-1]
+		p.mu.Unlock()
+		return c
+	}
+	p.mu.Unlock()
+	return p.New()
+}
+
+func (p *ctxPool) Put(c any) {
+	p.mu.Lock()
+	p.free = append(p.free, c.(*fxCtx))
+	p.mu.Unlock()
+}
+
 type fxPlan struct {
 	fx     *space.Fixture
 	orig   *space.Node
-	pool   sync.Pool
+	pool   ctxPool
 	nSites int
 	nSpine int
 	filter func(l *Layout, root *space.Node) func(n *space.Node, path []int) bool
@@ -122,7 +147,7 @@ type fxPlan struct {
 // newPlan: spineTx = number of leading transactions whose spine takes part in d=2;
 // d1Spine = restrict the d=1 sites of this fixture to its spine (used in the quick tier for
 // the large harness-built blocks, whose inner content repeats that of the real fixtures).
-func newPlan(fx *space.Fixture, spineTx int, d1Spine bool) (*fxPlan, error) {
+func newPlan(fx *space.Fixture, spineTx, repeatMax int, d1Spine bool) (*fxPlan, error) {
 	orig, err := space.Parse(fx.Cbor)
 	if err != nil {
 		return nil, fmt.Errorf("fixture %s: own reader: %w", fx.Name, err)
@@ -187,6 +212,9 @@ func newPlan(fx *space.Fixture, spineTx int, d1Spine bool) (*fxPlan, error) {
 			if !ok {
 				return false
 			}
+			if r == "header" && repeatMax < 2 {
+				return false // quick tier: the header item only shifts what follows; pairs with it are left to the thorough tier
+			}
 			if spineRoles[r] {
 				return true
 			}
@@ -203,12 +231,12 @@ func newPlan(fx *space.Fixture, spineTx int, d1Spine bool) (*fxPlan, error) {
 			if !want[ti] {
 				return false
 			}
-			// of repeated items (outputs, datums, redeemers, scripts) only the first two per transaction
+			// of repeated items (outputs, datums, redeemers, scripts) only the first repeatMax per transaction
 			switch r {
 			case "output", "byron-output", "datum", "redeemer-entry", "redeemer-value", "redeemer-data", "redeemer-key", "script":
 				k := fmt.Sprintf("%d/%s", ti, r)
 				seenPer[k]++
-				return seenPer[k] <= 2
+				return seenPer[k] <= repeatMax
 			}
 			return true
 		}
